@@ -259,4 +259,40 @@ theorem nodup_of_nodup_map {α β : Type} (f : α → β) (l : List α) (hnd : (
     simp only [List.map_cons, List.nodup_cons, List.mem_map, not_exists, not_and] at hnd ⊢
     exact ⟨fun hx => hnd.1 x hx rfl, ih hnd.2⟩
 
+/-! ### Unfolding `to_result` -/
+
+/-- When `to_result` succeeds it went through all three stages. -/
+theorem toResult_ok (t : Typed) (r : Response) (h : toResult t = .ok r) :
+    ∃ r0 dm hs, base t.kind t.body = .ok r0 ∧ toMap t.declared = some dm ∧
+      applyDeclared r0.headers dm = .ok hs ∧
+      r = { r0 with headers := HMap.extend hs t.explicit } := by
+  unfold toResult at h
+  split at h
+  · cases h
+  · rename_i r0 h0
+    split at h
+    · cases h
+    · rename_i dm hdm
+      split at h
+      · cases h
+      · rename_i hs hhs
+        cases h
+        exact ⟨r0, dm, hs, h0, hdm, hhs, rfl⟩
+
+theorem base_ok (k : Kind) (body : Option Str) (r0 : Response) (h : base k body = .ok r0) :
+    r0.status = k.status ∧
+    (k.hasBody = true → ∃ b, body = some b ∧ r0.body = b ∧ r0.headers = [(hContentType, ctJson)]) ∧
+    (k.hasBody = false → r0.body = [] ∧ r0.headers = []) := by
+  unfold base at h
+  split at h
+  · rename_i hb
+    split at h
+    · cases h
+    · rename_i b
+      cases h
+      exact ⟨rfl, fun _ => ⟨b, rfl, rfl, rfl⟩, fun h' => by simp [hb] at h'⟩
+  · rename_i hb
+    cases h
+    exact ⟨rfl, fun h' => absurd h' hb, fun _ => ⟨rfl, rfl⟩⟩
+
 end Dropshot.Response
